@@ -905,6 +905,14 @@ VmTrap vm_core_execute(VmState *vm) {
              * after the CALL in the caller) before we pop the frame */
             uint32_t ret_ip = frame->return_ip;
 
+            /* A closure call popped its callee off the stack and parked the
+             * reference in the frame: drop it now that the call is over. */
+            if (frame->closure) {
+                VmClosure *done = frame->closure;
+                frame->closure = NULL;
+                vm_release(&vm->heap, val_closure(done));
+            }
+
             vm->frame_count--;
 
             if (vm->frame_count == 0) {
@@ -1731,6 +1739,11 @@ VmTrap vm_core_execute(VmState *vm) {
         while (vm->stack_size > frame->stack_base) {
             NanoValue v = stack_pop(vm);
             vm_release(&vm->heap, v);
+        }
+        if (frame->closure) {
+            VmClosure *done = frame->closure;
+            frame->closure = NULL;
+            vm_release(&vm->heap, val_closure(done));
         }
         vm->frame_count--;
         if (vm->frame_count == 0) {
